@@ -21,7 +21,10 @@ HMAX = 5
 
 
 # ---- history generation on the real schedule ---------------------------------------------------
-def random_step(rng, sched, phase_b):
+def random_step(rng, sched, phase_b, state):
+    """`state["rc_node"]`: the loop of the previous redundant-computation step; it is chosen again
+    with probability 1/2 so that histories contain REPEATED steps on one loop with decreasing, equal
+    and increasing depths (and a fixed depth after the maximum depth)."""
     from psyclone.psyGen import HaloExchange
     flat = R.flat_nodes(sched)
     loops = [i for i, n in enumerate(flat) if not isinstance(n, HaloExchange)]
@@ -29,7 +32,10 @@ def random_step(rng, sched, phase_b):
     kinds = ["rc", "rc", "rc", "col"] if not phase_b else ["async", "move", "move", "omp", "rc", "col"]
     kind = rng.choice(kinds)
     if kind == "rc" and loops:
-        return ["rc", rng.choice(loops), rng.choice([None, None, 1, 2, 2, 3])]
+        again = [i for i in loops if flat[i] is state.get("rc_node")]
+        i = again[0] if again and rng.random() < 0.5 else rng.choice(loops)
+        state["rc_node"] = flat[i]
+        return ["rc", i, rng.choice([None, None, 1, 1, 2, 2, 3])]
     if kind == "col" and loops:
         return ["col", rng.choice(loops)]
     if kind == "async" and hexes:
@@ -54,20 +60,21 @@ def run_history(rng, info, idx, ann, nsteps, fixed_steps=None):
     todo = list(fixed_steps) if fixed_steps is not None else None
     n = len(todo) if todo is not None else nsteps
     region_done = False
+    rstate = {}
     for s in range(n):
         if todo is not None:
             step = todo[s]
         else:
-            step = random_step(rng, sched, phase_b=(s >= nsteps // 2))
+            step = random_step(rng, sched, s >= (2 * nsteps + 2) // 3, rstate)
         if step is None or region_done:
             continue
         before = R.flat_nodes(sched)
-        if step[0] == "rcl":          # redundant computation on the n-th kernel loop
+        if step[0] in ("rcl", "coll"):    # redundant computation on / colouring of the n-th kernel loop
             from psyclone.psyGen import HaloExchange
             loops = [i for i, nd in enumerate(before) if not isinstance(nd, HaloExchange)]
             if step[1] >= len(loops):
                 continue
-            step = ["rc", loops[step[1]], step[2]]
+            step = ["rc", loops[step[1]], step[2]] if step[0] == "rcl" else ["col", loops[step[1]]]
         try:
             R.apply_step(sched, step)
         except TransformationError:
@@ -215,7 +222,7 @@ def systematic_invokes():
                 elif r in (0, 1, 2, 3, 4):
                     rcs = [["kern", r, [target], [None]]]
                 elif len(SYS_POOL[r]["args"][1]) == 3 and SYS_POOL[r]["args"][1][2]:
-                    rcs = [["kern", r, ["fe" if r in (7, 8) else "fc", target], [None, e]] for e in (1, "ext1")]
+                    rcs = [["kern", r, ["fe" if r in (7, 8) else "fc", target], [None, e]] for e in (1, 2, "ext1")]
                 else:
                     rcs = [["kern", r, ["fe" if r == 9 else "fc", target], [None, None]]]
                 for rc in rcs:
@@ -223,17 +230,29 @@ def systematic_invokes():
     return out
 
 
+W_SEQS = [[], [1], [2], [None], [2, 1], [2, 2], [1, 2], [3, 1], [None, 1], [None, None], [1, None, 2]]
+R_SEQS = [[], [2], [3], [None], [2, 1], [3, 2], [None, 2]]
+
+
 def systematic_histories():
-    hs = []
-    for dw in ("skip", 1, 2, None):
-        for dr in ("skip", 2, 3, None):
-            h = []
-            if dw != "skip":
-                h.append(["rcl", 0, dw])
-            if dr != "skip":
-                h.append(["rcl", 1, dr])
-            hs.append(h)
-    return hs
+    """(base, extended): base = one step per loop (16 histories); extended = REPEATED
+    redundant-computation steps on the writer and/or the reader loop with decreasing, equal and
+    increasing depths and a fixed depth after the maximum, writer first or reader first, with the
+    loop optionally coloured first (cell / colour / dof loops all occur in the family)."""
+    base, ext = [], []
+    for w in W_SEQS:
+        for r in R_SEQS:
+            ws = [["rcl", 0, d] for d in w]
+            rs = [["rcl", 1, d] for d in r]
+            if len(w) <= 1 and len(r) <= 1 and w != [3] :
+                base.append(ws + rs)
+            else:
+                ext.append(ws + rs)
+            if len(w) > 1 and r:
+                ext.append(rs + ws)                      # the reader's need is fixed first
+            if len(w) > 1 or len(r) > 1:
+                ext.append([["coll", 0], ["coll", 1]] + ws + rs)
+    return base, ext
 
 
 # ---- run ---------------------------------------------------------------------------------------
@@ -339,8 +358,9 @@ def run(chk):
         info = R.parse_file(wd.path, SYS_POOL, sys_inv, tag="sys")
         cases = []
         for idx, invk in enumerate(sys_inv):
+            base, ext = systematic_histories()
             for ann in (0, 1):
-                for hist in systematic_histories():
+                for hist in base + (ext if thorough else rng.sample(ext, 14)):
                     res = run_history(rng, info, idx, ann, 0, fixed_steps=hist)
                     if "crash" in res:
                         dist["crashed"] += 1
@@ -363,7 +383,7 @@ def run(chk):
             inv_local = [list(c) if c[0] == "builtin" else ["kern", remap[c[1]], c[2], c[3]] for c in invk]
             for ann in (0, 1):
                 for h in range(n_hist):
-                    res = run_history(rng, info, idx, ann, 0 if h == 0 else rng.randint(1, 5))
+                    res = run_history(rng, info, idx, ann, 0 if h == 0 else rng.randint(1, 6))
                     if "crash" in res:
                         dist["crashed"] += 1
                         continue
